@@ -1319,6 +1319,12 @@ class Frame:
             first = self.ev(gens[0].iter)
             if isinstance(first, V.SymRange):
                 return SOpaque("list-built-by-a-comprehension-over-a-range-of-symbolic-length", first)
+        if getattr(self.I.ctx, "range_bound", None) is not None or getattr(self.I.ctx, "summarise", False):
+            # (the same for a comprehension over the bytes of a buffer of symbolic length: a finite loop over the buffer,
+            # as list(buffer) and `for x in buffer` are in these contracts)
+            first = self.I.ctx.resolve(self.ev(gens[0].iter))
+            if isinstance(first, (SBuf, SZeros)) and isinstance(self.I.ctx.resolve(first.n), SInt):
+                return SOpaque("list-built-by-a-comprehension-over-a-buffer-of-symbolic-length", first)
         try:
             return list(rec(0))
         finally:
